@@ -12,7 +12,7 @@ Exit 2: harness error (build failed, simulator crashed, replay did not reproduce
 
 stdlib only. Everything is rebuilt from the working tree of $GLAM_REPO (default /repo) by cargo.
 """
-import argparse, hashlib, json, os, shutil, subprocess, sys, time
+import argparse, hashlib, json, os, re, shutil, subprocess, sys, time
 
 VERIF = os.path.dirname(os.path.abspath(__file__))
 SIM = os.path.join(VERIF, "sim")
@@ -55,7 +55,17 @@ CONFIGS = {
     "sse2-dbg": dict(tc=None, features=["interop"], profile="dev", rustflags=""),
     "scalar": dict(tc=None, features=["interop", "scalar-math"], profile="release", rustflags=""),
     "coresimd": dict(tc="nightly", features=["interop", "core-simd"], profile="release", rustflags=""),
+    # rustflags of the two `native*` entries are filled in by native_rustflags(): +fma,+avx2 and every other
+    # `target_feature = ".."` atom the working tree's sources mention that this CPU has
     "native": dict(tc=None, features=["interop"], profile="release", rustflags="-C target-feature=+fma,+avx2"),
+    # cargo features that switch code paths are build-time inputs like target features: `fast-math` (together with the
+    # target features, its cfg gates are conjunctions of the two) ...
+    "native-fast": dict(tc=None, features=["interop", "fast-math"], profile="release", rustflags="-C target-feature=+fma,+avx2"),
+    # ... and `cuda` (alignment attributes: changes size / padding of the 2- and 4-lane types in both layouts)
+    # `debug-glam-assert`: the same assertions, compiled in only together with debug_assertions
+    "sse2-dbg-assert": dict(tc=None, features=["interop", "debug-glam-assert"], profile="dev", rustflags=""),
+    "cuda": dict(tc=None, features=["interop", "cuda"], profile="release", rustflags=""),
+    "scalar-cuda": dict(tc=None, features=["interop", "scalar-math", "cuda"], profile="release", rustflags=""),
     # glam's optional precondition assertions compiled in: an assertion that looks at a padding lane makes the
     # panic / no-panic outcome depend on it (C08 does not restrict itself to builds without glam-assert)
     "sse2-assert": dict(tc=None, features=["interop", "glam-assert"], profile="release", rustflags=""),
@@ -92,8 +102,8 @@ def target_dir(cfg):
     return os.path.join(TARGET_ROOT, repo_tag(), cfg)
 
 
-BACKEND_FEATURE = {"libm": None, "sse2-assert": None, "sse2-rel": None, "sse2-dbg": None, "native": None, "scalar": "scalar-math", "coresimd": "core-simd",
-                   "miri": None, "miri-scalar": "scalar-math", "miri-coresimd": "core-simd", "asan": None}
+BACKEND_FEATURE = {"sse2-dbg-assert": None, "native-fast": None, "cuda": None, "scalar-cuda": "scalar-math", "libm": None, "sse2-assert": None, "sse2-rel": None, "sse2-dbg": None, "native": None, "scalar": "scalar-math", "coresimd": "core-simd",
+                   "miri": None, "miri-rel": None, "miri-scalar": "scalar-math", "miri-coresimd": "core-simd", "asan": None}
 _ops = {}
 _ops_lock = __import__("threading").Lock()
 
@@ -140,6 +150,8 @@ def build(cfg, extra_env=None):
     key = (cfg, tuple(sorted((extra_env or {}).items())))
     if key in _built:
         return _built[key]
+    if cfg.startswith("native"):
+        native_rustflags()
     c = CONFIGS[cfg]
     cmd = ["cargo"]
     if c["tc"]:
@@ -239,6 +251,9 @@ def miri_cmd(cfg, args):
     feat = BACKEND_FEATURE[cfg]
     cmd = ["cargo", "+nightly", "miri", "run", "--offline", "--manifest-path", manifest_path(), "--no-default-features",
            "--target-dir", target_dir(cfg)]
+    if cfg == "miri-rel":
+        # cfg(not(debug_assertions)) paths: an uninitialised read there is visible to neither ASan nor the dev-profile interpreter
+        cmd.append("--release")
     if feat:
         cmd += ["--features", feat]
     return cmd + ["--"] + [str(a) for a in args]
@@ -384,10 +399,57 @@ def run_asan(args):
     return run_monitored("asan", [([binp] + [str(a) for a in args] + ["--echo-cases"], env)], "asan")
 
 
+_native = {}
+
+
+def native_rustflags():
+    """+fma,+avx2 plus every x86 target feature named in a cfg of the working tree's sources that this CPU supports
+    (a code path behind `cfg(target_feature = "sse4.1")` is compiled in no default build)."""
+    if "flags" in _native:
+        return _native["flags"], _native["atoms"]
+    atoms = set()
+    for root, _, files in os.walk(os.path.join(REPO, "src")):
+        for f in files:
+            if f.endswith(".rs"):
+                try:
+                    atoms.update(re.findall(r'target_feature\s*=\s*"([A-Za-z0-9_.+-]+)"', open(os.path.join(root, f), errors="replace").read()))
+                except OSError:
+                    pass
+    cpuname = {"sse4.1": "sse4_1", "sse4.2": "sse4_2", "lzcnt": "abm", "sse3": "pni", "pclmulqdq": "pclmulqdq"}
+    feats, unsupported = ["fma", "avx2"], []
+    for a in sorted(atoms):
+        if a in ("sse", "sse2", "fma", "avx2", "simd128", "neon", "crt-static") or a in feats:
+            continue
+        (feats if cpu_has(cpuname.get(a, a)) else unsupported).append(a)
+    _native["flags"] = "-C target-feature=" + ",".join("+" + f for f in feats)
+    _native["atoms"] = {"in_source": sorted(atoms), "enabled": feats, "not_supported_by_this_cpu": unsupported}
+    for c in ("native", "native-fast"):
+        CONFIGS[c]["rustflags"] = _native["flags"]
+    return _native["flags"], _native["atoms"]
+
+
+def feature_atoms():
+    """cargo features of glam named in a cfg of the sources, and the registered configuration that compiles each in"""
+    atoms = set()
+    for root, _, files in os.walk(os.path.join(REPO, "src")):
+        for f in files:
+            if f.endswith(".rs"):
+                atoms.update(re.findall(r'feature\s*=\s*"([A-Za-z0-9_-]+)"', re.sub(r'target_feature\s*=\s*"[^"]*"', "", open(os.path.join(root, f), errors="replace").read())))
+    interop = {"serde", "bytemuck", "mint", "rkyv", "bytecheck", "approx"}
+    where = {}
+    for a in sorted(atoms):
+        cfgs = [c for c, d in CONFIGS.items() if a in d["features"] or (a in interop and "interop" in d["features"])]
+        if a == "std":
+            cfgs = ["all (the simulator is a std program)"]
+        where[a] = cfgs
+    return where
+
+
 def available_configs(names):
     out, skipped = [], []
+    native_rustflags()
     for n in names:
-        if n == "native" and not cpu_has("fma", "avx2"):
+        if n in ("native", "native-fast") and not cpu_has("fma", "avx2"):
             skipped.append((n, "CPU lacks fma/avx2"))
             continue
         out.append(n)
@@ -443,7 +505,7 @@ def replay_file(path):
         return rep, replay_cross_build(rep, path)
     cfg = rep.get("config")
     try:
-        if cfg in ("miri", "miri-scalar", "miri-coresimd"):
+        if cfg in ("miri", "miri-rel", "miri-scalar", "miri-coresimd"):
             res = run_miri(cfg, ["replay", "--file", path])
         elif cfg == "asan" and rep.get("part") == "asan-run":
             run_asan(rep["cmd"])
@@ -501,6 +563,19 @@ def report(prop, all_violations, verify_replay=True):
 def write_evidence(prop, tier, seed, level, coverage, assumptions, wall, nviol):
     d = os.path.join(out_root(), "evidence")
     os.makedirs(d, exist_ok=True)
+    # build-time inputs: which cfg atoms the sources mention and which registered configuration compiles each in
+    try:
+        coverage = dict(coverage)
+        fa = feature_atoms()
+        coverage["build_time_inputs"] = {
+            "cargo_features_in_source_cfgs": fa,
+            "cargo_features_compiled_in_by_no_configuration": sorted(a for a, c in fa.items() if not c),
+            "target_features": native_rustflags()[1],
+            "configurations": {c: {"features": CONFIGS[c]["features"], "profile": CONFIGS[c]["profile"], "rustflags": CONFIGS[c]["rustflags"],
+                                   "toolchain": CONFIGS[c]["tc"] or "stable"} for c in coverage.get("configurations_run", []) if c in CONFIGS},
+        }
+    except Exception as e:  # evidence only; never affects the verdict
+        coverage["build_time_inputs"] = {"error": str(e)}
     ev = {
         "property_id": prop, "tier": tier, "seed": seed, "level": level,
         "coverage": coverage, "assumptions": assumptions, "wall_s": round(wall, 2), "violations": nviol,
@@ -528,7 +603,7 @@ COMPONENTS = {
 
 def check_c19(tier, seed):
     t0 = time.time()
-    cfgs, skipped = available_configs(["sse2-rel", "scalar", "coresimd"] + (["sse2-dbg", "native"] if tier == "thorough" else []))
+    cfgs, skipped = available_configs(["sse2-rel", "scalar", "coresimd", "cuda", "scalar-cuda"] + (["sse2-dbg", "native", "native-fast"] if tier == "thorough" else []))
     values = 8 if tier == "quick" else 400
     build_all(cfgs)
     det = selftest_determinism("sse2-rel", seed, [["c19", "--values", 2]], seeds=2 if tier == "quick" else 8)
@@ -634,11 +709,11 @@ def selftest_determinism(cfg, seed, cmds, seeds=4):
 
 def check_c08(tier, seed):
     t0 = time.time()
-    names = ["sse2-rel", "sse2-dbg", "coresimd", "native", "sse2-assert"]
+    names = ["sse2-rel", "sse2-dbg", "coresimd", "native", "sse2-assert", "native-fast", "sse2-dbg-assert"]
     cfgs, skipped = available_configs(names)
     skipped.append(("scalar", "the padding lane does not exist under scalar-math (the property says so)"))
-    runs = {"quick": {"sse2-rel": 300000, "sse2-dbg": 40000, "coresimd": 300000, "native": 150000, "sse2-assert": 150000},
-            "thorough": {"sse2-rel": 6000000, "sse2-dbg": 500000, "coresimd": 6000000, "native": 6000000, "sse2-assert": 3000000}}[tier]
+    runs = {"quick": {"sse2-rel": 300000, "sse2-dbg": 40000, "coresimd": 300000, "native": 150000, "sse2-assert": 150000, "native-fast": 100000, "sse2-dbg-assert": 20000},
+            "thorough": {"sse2-rel": 6000000, "sse2-dbg": 500000, "coresimd": 6000000, "native": 6000000, "sse2-assert": 3000000, "native-fast": 3000000, "sse2-dbg-assert": 300000}}[tier]
     build_all(cfgs)
     det = selftest_determinism("sse2-rel", seed, [["c08", "--runs", 2000]], seeds=4 if tier == "quick" else 32)
     results = []
@@ -698,7 +773,7 @@ def check_c08(tier, seed):
 
 def check_c17(tier, seed):
     t0 = time.time()
-    cfgs, skipped = available_configs(["sse2-rel", "scalar", "coresimd", "sse2-dbg"] + (["native"] if tier == "thorough" else []))
+    cfgs, skipped = available_configs(["sse2-rel", "scalar", "coresimd", "sse2-dbg", "native-fast", "cuda", "scalar-cuda"] + (["native"] if tier == "thorough" else []))
     build_all(cfgs)
     hist = {"quick": 1500, "thorough": 40000}[tier]
     det = selftest_determinism("sse2-rel", seed, [["c17", "--histories", 60, "--no-grid"]], seeds=2 if tier == "quick" else 16)
@@ -768,8 +843,10 @@ def check_c17(tier, seed):
 
 def check_c18(tier, seed):
     t0 = time.time()
-    cfgs, skipped = available_configs(["sse2-rel", "sse2-dbg", "scalar", "coresimd", "native"])
-    build_all(cfgs + ["libm"])
+    cfgs, skipped = available_configs(["sse2-rel", "sse2-dbg", "scalar", "coresimd", "native", "native-fast"])
+    # alignment variants: only the memory cases and the conversions depend on them
+    layout_cfgs = ["cuda", "scalar-cuda"]
+    build_all(cfgs + ["libm"] + layout_cfgs)
     rounds = 2 if tier == "quick" else 24
     samples = 512 if tier == "quick" else 20000
     crash_viols = []
@@ -789,6 +866,12 @@ def check_c18(tier, seed):
         results_c.append((c, run_sim(c, ["conv", "--seed", seed, "--rounds", 200 if tier == "quick" else 20000])))
         nchain = (1000000 if tier == "quick" else 60000000) // (8 if c == "sse2-dbg" else 1)
         results_ch.append((c, run_sim(c, ["c18chain", "--seed", seed, "--runs", nchain, "--workers", NCPU])))
+    for c in layout_cfgs:
+        try:
+            results_m.append((c, run_sim(c, ["c18m", "--seed", seed, "--rounds", rounds])))
+        except CrashFound as e:
+            crash_viols.append(crash_violation(e, seed, "Guarded"))
+        results_c.append((c, run_sim(c, ["conv", "--seed", seed, "--rounds", 200 if tier == "quick" else 20000])))
     # math-backend variant: only the hostile sweep depends on it
     results_p.append(("libm", run_sim("libm", ["c18p", "--seed", seed, "--samples", samples, "--workers", NCPU])))
     viols, fired, effective, probes = list(crash_viols), {}, {}, {}
@@ -804,7 +887,7 @@ def check_c18(tier, seed):
     #             special, all-zero and one structured argument set; quick: two of the four per op)
     #  conv     : pointer-cast / union / aligned-temporary conversions of the SIMD matrix and vector types
     #  histories: short format-free C17 histories of the SIMD-backed vector types (Deref overlays, AsRef/AsMut, to_array ...)
-    miri_cfgs = ["miri"] if tier == "quick" else ["miri", "miri-scalar", "miri-coresimd"]
+    miri_cfgs = ["miri"] if tier == "quick" else ["miri", "miri-scalar", "miri-coresimd", "miri-rel"]
     for mc in miri_cfgs:
         jobs = []
         mem_groups = SIMD_GROUPS if tier == "quick" else [[t] for g in TYPE_GROUPS for t in g]
@@ -814,7 +897,7 @@ def check_c18(tier, seed):
         # the four argument sets rotates with the op index and the seed), the thorough tier all four
         shards = NCPU if tier == "quick" else 2 * NCPU
         for i in range(shards):
-            jobs.append(("every-op", ["c18p", "--once", "--seed", seed, "--shard", i, "--of", shards] + (["--calls", 1] if tier == "quick" else [])))
+            jobs.append(("every-op", ["c18p", "--once", "--seed", seed, "--shard", i, "--of", shards] + (["--calls", 1, "--related", 4] if tier == "quick" else ["--related", 64])))
         jobs.append(("conv", ["conv", "--seed", seed, "--rounds", 3 if tier == "quick" else 40]))
         conv_types = ["Vec3A", "Vec4", "Quat", "BVec3A", "BVec4A"] + (["Vec3", "DVec4", "DQuat", "IVec3", "U8Vec4"] if tier == "thorough" else [])
         hist_groups = [conv_types[:3], conv_types[3:]] if tier == "quick" else [[t] for t in conv_types]
